@@ -1,0 +1,71 @@
+//go:build verif
+
+package envelope
+
+// Contracts for the deductive verifier in /verif (govc). Comment-only file.
+
+//@ // the signed part of an envelope [signature, {h: header, "ucan/...": payload}]
+//@ pure func sigPayload(n datamodel.Node) datamodel.Node = lookupIdx(n, 1)
+//@ pure func isHdrKey(sp datamodel.Node, a int) bool = asStringErr(mapKeyAt(sp, a)) == nil && nodeStr(mapKeyAt(sp, a)) == "h"
+//@ pure func isTagKey(sp datamodel.Node, a int) bool = asStringErr(mapKeyAt(sp, a)) == nil && hasPrefix(nodeStr(mapKeyAt(sp, a)), "ucan/")
+//@ // entry a is the varsig header recorded in res, entry b the token payload recorded in res
+//@ pure func entriesAre(sp datamodel.Node, res Info, a int, b int) bool =
+//@     isHdrKey(sp, a) && bytes(res.VarsigHeader) == nodeBytes(mapValAt(sp, a))
+//@  && isTagKey(sp, b) && res.Tag == nodeStr(mapKeyAt(sp, b)) && res.tokenPayloadNode == mapValAt(sp, b)
+//@
+//@ func Inspect
+//@   requires node != nil
+//@   ensures [C06,C10] shape: result1 == nil ==> nodeKind(sigPayload(node)) == datamodel.Kind_Map && mapLen(sigPayload(node)) == 2 && result0.sigPayloadNode == sigPayload(node)
+//@   ensures [C06] signature: result1 == nil ==> bytes(result0.Signature) == nodeBytes(lookupIdx(node, 0))
+//@   ensures [C06,C10] entries: result1 == nil ==> entriesAre(sigPayload(node), result0, 0, 1) || entriesAre(sigPayload(node), result0, 1, 0)
+//@   use node_sizes, node_map_children
+//@   loop 0: invariant it != nil && mitNode(it) == res.sigPayloadNode && i == mitPos(it) && 0 <= i && i <= 2
+//@           invariant res.sigPayloadNode == sigPayload(node) && nodeKind(res.sigPayloadNode) == datamodel.Kind_Map && bytes(res.Signature) == nodeBytes(lookupIdx(node, 0))
+//@           invariant forall a int :: 0 <= a && a < i ==> isHdrKey(sigPayload(node), a) || isTagKey(sigPayload(node), a)
+//@           invariant foundVarsigHeader == ((i > 0 && isHdrKey(sigPayload(node), 0)) || (i > 1 && isHdrKey(sigPayload(node), 1)))
+//@           invariant foundTokenPayload == ((i > 0 && isTagKey(sigPayload(node), 0)) || (i > 1 && isTagKey(sigPayload(node), 1)))
+//@           invariant (i > 1 && isHdrKey(sigPayload(node), 1)) ? bytes(res.VarsigHeader) == nodeBytes(mapValAt(sigPayload(node), 1)) : ((i > 0 && isHdrKey(sigPayload(node), 0)) ==> bytes(res.VarsigHeader) == nodeBytes(mapValAt(sigPayload(node), 0)))
+//@           invariant (i > 1 && isTagKey(sigPayload(node), 1)) ? (res.Tag == nodeStr(mapKeyAt(sigPayload(node), 1)) && res.tokenPayloadNode == mapValAt(sigPayload(node), 1)) : ((i > 0 && isTagKey(sigPayload(node), 0)) ==> (res.Tag == nodeStr(mapKeyAt(sigPayload(node), 0)) && res.tokenPayloadNode == mapValAt(sigPayload(node), 0)))
+//@           decreases mapLen(sigPayload(node)) - mitPos(it) + 3 - i
+//@
+//@ // which entry of the signed part is the payload / the header / the tag
+//@ pure func tokenPayloadOf(sp datamodel.Node) datamodel.Node = isTagKey(sp, 0) ? mapValAt(sp, 0) : mapValAt(sp, 1)
+//@ pure func headerOf(sp datamodel.Node) string = isHdrKey(sp, 0) ? nodeBytes(mapValAt(sp, 0)) : nodeBytes(mapValAt(sp, 1))
+//@ pure func tagOf(sp datamodel.Node) string = isTagKey(sp, 0) ? nodeStr(mapKeyAt(sp, 0)) : nodeStr(mapKeyAt(sp, 1))
+//@ pure func issuerKeyOf(sp datamodel.Node) crypto.PubKey = pubKeyOf(parsedDID(nodeStr(lookupStr(tokenPayloadOf(sp), "iss"))))
+//@
+//@ // C06: what a successful unwrap of an envelope establishes (stated once, used by the typed decoders):
+//@ // the signature verifies under the key of the DID in the payload's iss field over the canonical
+//@ // DAG-CBOR encoding of the signed part; the announced header is the one of that key's type; the
+//@ // signed part is exactly {header, tag: payload}.
+//@ pure func envelopeVerified(node datamodel.Node, tag string) bool =
+//@     nodeKind(sigPayload(node)) == datamodel.Kind_Map && mapLen(sigPayload(node)) == 2
+//@  && ((isHdrKey(sigPayload(node), 0) && isTagKey(sigPayload(node), 1)) || (isHdrKey(sigPayload(node), 1) && isTagKey(sigPayload(node), 0)))
+//@  && tagOf(sigPayload(node)) == tag
+//@  && headerOf(sigPayload(node)) == varsigOf(keyTypeOf(issuerKeyOf(sigPayload(node))))
+//@  && sigVerify(issuerKeyOf(sigPayload(node)), encodeWith(dagcbor.Encode, sigPayload(node)), nodeBytes(lookupIdx(node, 0)))
+//@
+//@ // the generic decoder is verified inside its two instantiating callers (inlined there)
+//@ func FromIPLD
+//@   inline
+//@
+//@ func Decode
+//@   inline
+//@ func FromDagCbor
+//@   inline
+//@ func FromDagJson
+//@   inline
+//@
+//@ func FindTag
+//@   requires node != nil
+//@   use node_sizes, node_map_children
+//@   loop 0: invariant it != nil && 0 <= i && i <= 2 && i == mitPos(it) && nodeKind(mitNode(it)) == datamodel.Kind_Map
+//@           decreases 3 - i
+//@
+//@ // ---- C08: the content identifier of a byte string -----------------------------------------------------
+//@ // CIDv1, DAG-CBOR codec (0x71), SHA2-256 (0x12), default digest length
+//@ pure func ucanCid(data string) cid.Cid = cidSum(1, 113, 18, 0, data)
+//@ func CIDFromBytes
+//@   ensures [C08] spec: result1 == nil ==> result0 == ucanCid(bytes(b))
+//@   ensures [C08] err: result1 == cidSumErr(1, 113, 18, 0, bytes(b))
+//@   assigns [C20] nothing
